@@ -77,6 +77,10 @@ func (c *Client) Close() error {
 		ctx, cancelFunc := context.WithTimeout(context.Background(), time.Second*5)
 		defer cancelFunc()
 		_, err := c.channel.FinishSession(ctx)
+		if err != nil {
+			// The session could not be finished in an orderly way: the connection is released all the same
+			_ = c.channel.Close()
+		}
 		c.channel = nil
 		return err
 	}
